@@ -210,6 +210,159 @@ def ast_callgraph():
     return nonstatic, {n: sorted("%s::%s" % c for c in cs) for n, cs in statics.items()}, []
 
 
+def ast_guards(side):
+    """For every guardedWrite entry `caller->callee#n` of the sidecar: find, in clang's AST of the class, the n-th call of `callee` in the
+    const member function `caller`, collect the conditions of the enclosing IfStmts (then-branch only) as formulas over member names /
+    opaque sub-expressions, and compare with the formula the regex scan produced -- as truth tables over the flags `m_*` both mention
+    (opaque atoms are compared by their number only).  -> list of problems"""
+    problems = []
+    ents = [e for e in side["entries"] if e["kind"] == "guardedWrite" and "->" in e["name"] and "::" not in e["name"].split("->")[0]]
+    by_cls = {}
+    for e in ents:
+        by_cls.setdefault(e["scope"], []).append(e)
+    for cls, es in by_cls.items():
+        h = os.path.join(SRC, side["class_files"][cls])
+        cpp = re.sub(r"\.hpp$", ".cpp", h)
+        rc, out, err = dump(cpp if os.path.exists(cpp) else h, cls)
+        objs = decode_stream(out)
+        rec_ids = set()
+
+        def recs(nd):
+            if nd.get("kind") == "CXXRecordDecl" and nd.get("name") == cls:
+                rec_ids.add(nd.get("id"))
+            for c in nd.get("inner", []) or []:
+                if c.get("kind") in ("CXXRecordDecl", "NamespaceDecl"):
+                    recs(c)
+        for o in objs:
+            recs(o)
+        found = {}      # (caller, callee) -> [formula per call site, in source order]
+
+        def formula(nd):
+            k = nd.get("kind")
+            inner = nd.get("inner") or []
+            if k in ("ImplicitCastExpr", "ParenExpr", "ExprWithCleanups", "CXXBindTemporaryExpr", "MaterializeTemporaryExpr") and inner:
+                return formula(inner[0])
+            if k == "BinaryOperator" and nd.get("opcode") in ("&&", "||") and len(inner) == 2:
+                return ("and" if nd["opcode"] == "&&" else "or", formula(inner[0]), formula(inner[1]))
+            if k == "UnaryOperator" and nd.get("opcode") == "!" and inner:
+                return ("not", formula(inner[0]))
+            if k == "BinaryOperator" and nd.get("opcode") in ("==", "!=") and len(inner) == 2:
+                a, b = inner
+                def strip(x):
+                    while x.get("kind") in ("ImplicitCastExpr", "ParenExpr") and x.get("inner"):
+                        x = x["inner"][0]
+                    return x
+                a, b = strip(a), strip(b)
+                if a.get("kind") == "MemberExpr" and b.get("kind") == "CXXBoolLiteralExpr":
+                    return ("var", a.get("name"), (b.get("value") is True) == (nd["opcode"] == "=="))
+            if k == "MemberExpr" and (nd.get("type") or {}).get("qualType") in ("bool", "const bool"):
+                return ("var", nd.get("name"), True)
+            return ("opaque",)
+
+        def walk(nd, caller, guards):
+            k = nd.get("kind")
+            inner = nd.get("inner") or []
+            if k == "IfStmt" and len(inner) >= 2:
+                # inner = [cond, then, (else)] (an init / condition variable would come first; not used in this code base)
+                cond, then = inner[0], inner[1]
+                walk(cond, caller, guards)
+                walk(then, caller, guards + [formula(cond)])
+                for rest in inner[2:]:
+                    # `else if (...)`: the regex scan records the inner condition only (dropping the negation of the outer one
+                    # only weakens the antecedent); a plain `else` is one opaque variable in both
+                    walk(rest, caller, guards if rest.get("kind") == "IfStmt" else guards + [("opaque",)])
+                return
+            if k == "CXXMemberCallExpr" and inner:
+                me = inner[0]
+                while me.get("kind") in ("ImplicitCastExpr", "ParenExpr") and me.get("inner"):
+                    me = me["inner"][0]
+                if me.get("kind") == "MemberExpr":
+                    obj = (me.get("inner") or [{}])[0]
+                    while obj.get("kind") in ("ImplicitCastExpr", "ParenExpr") and obj.get("inner"):
+                        obj = obj["inner"][0]
+                    if obj.get("kind") == "CXXThisExpr":
+                        found.setdefault((caller, me.get("name")), []).append(list(guards))
+            for c in inner:
+                walk(c, caller, guards)
+
+        def visit(nd, inside):
+            k = nd.get("kind")
+            if k == "CXXRecordDecl":
+                for c in nd.get("inner", []) or []:
+                    visit(c, nd.get("name") == cls)
+            elif k in METHOD_KINDS:
+                if (inside or nd.get("parentDeclContextId") in rec_ids):
+                    for c in nd.get("inner", []) or []:
+                        if c.get("kind") == "CompoundStmt":
+                            walk(c, nd.get("name"), [])
+            elif k == "NamespaceDecl":
+                for c in nd.get("inner", []) or []:
+                    visit(c, inside)
+        for o in objs:
+            visit(o, False)
+
+        def flags(f, acc):
+            if f[0] == "var":
+                if isinstance(f[1], str) and f[1].startswith("m_"):
+                    acc.add(f[1])
+            elif f[0] in ("and", "or"):
+                flags(f[1], acc); flags(f[2], acc)
+            elif f[0] == "not":
+                flags(f[1], acc)
+            return acc
+
+        def ev(f, env, opaque):
+            if f[0] == "tt":
+                return True
+            if f[0] == "opaque":
+                return opaque
+            if f[0] == "var":
+                return (env[f[1]] == f[2]) if (isinstance(f[1], str) and f[1] in env) else opaque
+            if f[0] == "and":
+                return ev(f[1], env, opaque) and ev(f[2], env, opaque)
+            if f[0] == "or":
+                return ev(f[1], env, opaque) or ev(f[2], env, opaque)
+            return not ev(f[1], env, opaque)
+        for e in es:
+            caller, rest = e["name"].split("->")
+            callee, n = rest.split("#")
+            sites = found.get((caller, callee), [])
+            idx = int(n) - 1
+            if idx >= len(sites):
+                problems.append("guards: %s|%s: the AST has %d call(s) of %s in %s" % (cls, e["name"], len(sites), callee, caller))
+                continue
+            fa = ("tt",)
+            for g in sites[idx]:
+                fa = g if fa == ("tt",) else ("and", fa, g)
+
+            def named(c):      # the regex formula with variable indices replaced by their text
+                if c[0] == "var":
+                    return ("var", e["vars"][c[1]], c[2])
+                if c[0] in ("and", "or"):
+                    return (c[0], named(c[1]), named(c[2]))
+                if c[0] == "not":
+                    return ("not", named(c[1]))
+                return ("tt",)
+            fr = named(tuple(e["cond"]) if not isinstance(e["cond"], tuple) else e["cond"])
+
+            def tup(x):
+                return tuple(tup(y) if isinstance(y, list) else y for y in x) if isinstance(x, (list, tuple)) else x
+            fr = named(tup(e["cond"]))
+            fl = sorted(flags(fa, set()) | flags(fr, set()))
+            import itertools
+            for vals in itertools.product([False, True], repeat=len(fl)):
+                env = dict(zip(fl, vals))
+                for opaque in (False, True):
+                    if ev(fa, env, opaque) != ev(fr, env, opaque):
+                        problems.append("guards: %s|%s: the guard per the AST and per the regex scan differ at %s (opaque=%s): regex `%s`" % (
+                            cls, e["name"], env, opaque, e["condtext"]))
+                        break
+                else:
+                    continue
+                break
+    return problems
+
+
 def main():
     side = os.path.join(common.GEN, "C07_Share.json")
     if not os.path.exists(side):
@@ -274,6 +427,10 @@ def main():
             problems.append("call graph: AST graph does not reach XSLTProcessorEnvSupportDefault::installExternalFunctionLocal from doTransform")
         print("c07_ast: call graph: %d non-static functions reachable per the AST, %d functions per the regex graph, static callees %s" % (
             len(reach), len(regex_reach), sorted(statics)))
+    gp = ast_guards(d)
+    problems += gp
+    print("c07_ast: guard formulas of %d guardedWrite call sites compared with the AST, %d differences" % (
+        sum(1 for e in entries if e["kind"] == "guardedWrite" and "->" in e["name"]), len(gp)))
     print("c07_ast: %d classes checked with clang, %d skipped, %d differences" % (checked, len(skipped), len(problems)))
     for s in skipped[:10]:
         print("  skipped:", s)
